@@ -424,18 +424,38 @@ def coverage_check(cname, c, seed):
         missing = []
         total = 0
         hit = 0
+        inst_total = 0
+        inst_miss = 0
         for h in hdrs:
             want = os.path.join(REPO, h).replace("/", "#") + ".gcov"
             path = os.path.join(d, want)
             if not os.path.exists(path):
                 missing.append("%s: no coverage data (header not compiled into the client?)" % h)
                 continue
+            # gcov prints, for a line of a template, first the count summed over all instantiations and then one block
+            # per instantiation (between lines of dashes, headed by the instantiation's name).  A source line counts as
+            # executed when SOME instantiation executed it (the summed count); the per-instantiation blocks are only
+            # tallied for the evidence (inst_lines / inst_lines_unexecuted).
+            in_inst = False
+            after_dash = False
             for l in open(path, errors="replace"):
+                if l.startswith("------------------"):
+                    after_dash = True
+                    continue
                 parts = l.split(":", 2)
-                if len(parts) < 3:
+                regular = len(parts) >= 3 and re.match(r"^\s*([-#=]+|\d+\*?)$", parts[0]) is not None
+                if after_dash:
+                    in_inst = not regular
+                    after_dash = False
+                if not regular:
                     continue
                 cnt, ln, text = parts[0].strip(), parts[1].strip(), parts[2].rstrip("\n")
                 if cnt == "-" or ln == "0":
+                    continue
+                if in_inst:
+                    inst_total += 1
+                    if cnt in ("#####", "=====") or cnt.rstrip("*") == "0":
+                        inst_miss += 1
                     continue
                 total += 1
                 if cnt == "=====" and text.strip() in ("}", "};"):
@@ -454,6 +474,7 @@ def coverage_check(cname, c, seed):
         missing += imiss
         summary = dict(headers=hdrs, lines_instrumented=total, lines_executed=hit, lines_missing=len(missing) - len(imiss),
                        member_functions=nmem, members_never_instantiated=len(imiss),
+                       inst_lines=inst_total, inst_lines_unexecuted=inst_miss,
                        runs=ndirected * nd + nr + nr // 2)
         json.dump(dict(key=key, summary=summary, missing=missing), open(res_file, "w"))
         for f in os.listdir(d):
